@@ -101,16 +101,17 @@ class Obligation:
 
 
 class LoopSpec:
-    def __init__(self, invariants, kinds=None):
+    def __init__(self, invariants, kinds=None, ghost=None):
         self.invariants = invariants
         self.kinds = kinds or {}
+        self.ghost = ghost or {}    # ghost variable -> expression evaluated at the start of every iteration
 
 
 class Contract:
     def __init__(self, name, params, requires=(), ensures=(), raises=None, modifies=(),
                  allocates=False, loops=None, returns='none', axioms=(), hints=None,
                  role=False, pure=False, noraise_ok=True, ghost=None, cases=None, free_requires=(),
-                 known=None, defaults=None):
+                 known=None, defaults=None, ghost_init=None, varkw=None, ghost_kinds=None):
         self.name = name
         self.params = params            # ordered dict name -> kind
         self.requires = list(requires)
@@ -126,6 +127,9 @@ class Contract:
         self.role = role
         self.pure = pure
         self.ghost = ghost or {}
+        self.ghost_init = ghost_init or {}
+        self.varkw = varkw
+        self.ghost_kinds = ghost_kinds or {}
         self.known = known or {}        # clause key ('post#i' / 'raises:Cls#i') -> dict(id=..., case=spec)
         if defaults:
             self.defaults = defaults
@@ -192,7 +196,7 @@ class Engine:
 
     # ============================================================ heap
     SORTS = {'int': T.I, 'bool': T.B, 'bytes': T.Bytes, 'str': T.S, 'dyn': T.Val,
-             'list': T.I, 'struct': T.SF, 'rx': T.RX, 'kw': T.Kw, 'conf': T.Conf, 'meth': T.S}
+             'list': T.I, 'struct': T.SF, 'rx': T.RX, 'kw': T.Kw, 'conf': T.Conf, 'meth': T.S, 'cls': T.I}
 
     def kind_sort(self, kind):
         if kind.startswith('ref:') or kind.startswith('func:'):
@@ -220,6 +224,8 @@ class Engine:
             return VKw(z)
         if kind == 'conf':
             return VConf(z)
+        if kind == 'cls':
+            return VClassSym(z)
         if kind.startswith('ref:'):
             return VRef(z, kind[4:])
         if kind.startswith('func:'):
@@ -249,6 +255,8 @@ class Engine:
         if kind == 'kw' and isinstance(v, VKw):
             return v.z
         if kind == 'conf' and isinstance(v, VConf):
+            return v.z
+        if kind == 'cls' and isinstance(v, VClassSym):
             return v.z
         if kind == 'meth' and isinstance(v, VFunc) and v.tag == 'contract':
             return z3.StringVal(v.payload[0])
@@ -391,6 +399,10 @@ class Engine:
         """Only the axiom sets whose symbols occur in the obligation (keeps queries small)."""
         syms = self.symbols_in(exprs)
         out, used = [], []
+        if any(s.startswith('tup') for s in syms):
+            from .values import tuple_axioms
+            out += tuple_axioms()
+            used.append('tuples')
         for name, fn in T.AXIOM_SETS.items():
             trig = self.AXIOM_TRIGGERS.get(name, set())
             if trig & syms:
@@ -509,22 +521,21 @@ class Engine:
             intl = T.is_intlike
             veq = z3.Function('val_eq', st.heap['slots'].sort(), st.heap['llen'].sort(),
                               st.heap['lat'].sort(), T.Val, T.Val, T.B)
-            if isinstance(a, VDyn) and isinstance(b, VDyn):
-                # identical values compare equal (python compares identity first for containers;
-                # NaN-like objects are outside the value model)
-                return z3.If(za == zb, True,
-                       z3.If(z3.And(intl(za), intl(zb)), T.as_int(za) == T.as_int(zb),
-                             z3.If(z3.And(prim(za), prim(zb)), za == zb,
-                                   veq(st.heap['slots'], st.heap['llen'], st.heap['lat'], za, zb))))
-            # one side has a static primitive type
-            other, typed = (za, b) if isinstance(a, VDyn) else (zb, a)
-            if isinstance(typed, (VInt, VBool)):
-                return z3.And(intl(other), T.as_int(other) == self.as_int(typed)[0])
-            if isinstance(typed, (VBytes, VStr, VNone)):
+            # One formula for every comparison that involves a dynamically typed value:
+            # identical values are equal (python compares identity first for containers; NaN-like
+            # objects are outside the value model); ints/bools compare numerically; two
+            # primitives (int, bool, None, bytes, str) compare structurally; anything involving an
+            # object is decided by that object's __eq__ (uninterpreted val_eq over the packet heap).
+            if isinstance(a, VTuple) or isinstance(b, VTuple):
+                return za == zb     # tuples are values of an injective constructor (elementwise structural equality)
+            for typed in (a, b):
                 if isinstance(typed, VBytes):
+                    other = zb if typed is a else za
                     self.ext_pairs.append((T.Val.byval(other), typed.z))
-                return za == zb
-            return None
+            return z3.If(za == zb, True,
+                   z3.If(z3.And(intl(za), intl(zb)), T.as_int(za) == T.as_int(zb),
+                         z3.If(z3.And(prim(za), prim(zb)), False,
+                               veq(st.heap['slots'], st.heap['llen'], st.heap['lat'], za, zb))))
         # different static kinds
         prims = (VInt, VBool, VBytes, VStr, VNone)
         if isinstance(a, prims) and isinstance(b, prims):
@@ -600,12 +611,18 @@ class Engine:
             if not is_false(cn):
                 raises.append((cn, 'TypeError'))
             return VBytes(T.brepeat(s.z, nz)), raises
+        if isinstance(op, ast.Mult) and (isinstance(a, VStr) or isinstance(b, VStr)):
+            other = b if isinstance(a, VStr) else a
+            _, bad = self.as_int(other)
+            if not is_false(bad):
+                raises.append((bad, 'TypeError'))
+            return VStr(fresh('strmul', T.S)), raises
         if isinstance(op, ast.Add) and isinstance(a, VStr) and isinstance(b, VStr):
             if a.py is not None and b.py is not None:
                 return VStr(a.py + b.py), raises
             return VStr(z3.Concat(a.z, b.z)), raises
         if isinstance(op, ast.Mod) and isinstance(a, VStr):
-            return VStr(fresh('fmt', T.S)), raises      # %-formatting: opaque, total on our operands
+            return VStr(fresh('fmt', T.S)), self.format_raises(st, a, b)
         if isinstance(op, ast.Add) and isinstance(a, VList) and isinstance(b, VList):
             # list concatenation creates a new list
             r = self.alloc(st)
@@ -657,6 +674,29 @@ class Engine:
             if isinstance(op, ast.BitXor):
                 return VInt(bxor(x, y)), raises
         raise Untranslated('binop %s on %s,%s' % (type(op).__name__, a.kind, b.kind))
+
+    def format_raises(self, st, fmt, args):
+        """`fmt % args`: with a constant format the conversion specifiers are checked against the
+        arguments (%x %i %d %o need numbers); a format string that is not a literal may contain
+        anything, so the operation may raise (ValueError/TypeError)."""
+        import re as _re
+        if fmt.py is None:
+            return [(z3.Bool('fmt_raises!%d' % next(_uid)), 'ValueError')]
+        specs = _re.findall(r'%(?:\((\w+)\))?[#0\- +]*\d*(?:\.\d+)?([a-zA-Z%])', fmt.py)
+        specs = [s for s in specs if s[1] != '%']
+        items = args.items if isinstance(args, VTuple) else [args]
+        if any(nm for nm, _ in specs):
+            return []       # mapping form: only used with literal dicts in messages
+        if len(items) != len(specs):
+            if isinstance(args, VTuple) or len(specs) != 1:
+                return [(z3.BoolVal(True), 'TypeError')]
+        raises = []
+        for (nm, conv), it in zip(specs, items):
+            if conv in 'xXiduo':
+                _, bad = self.as_int(it)
+                if not is_false(bad):
+                    raises.append((bad, 'TypeError'))
+        return raises
 
     def norm_index(self, i, n):
         return z3.If(i < 0, i + n, i)
@@ -776,8 +816,7 @@ class Engine:
         s = z3.Solver()
         s.set('rlimit', 200000)
         for h in st.pc:
-            if not z3.is_quantifier(h):
-                s.add(h)
+            s.add(h)
         s.add(c)
         try:
             return s.check() != z3.unsat
